@@ -51,19 +51,22 @@ Proof.
     destruct (absorb_frequency_shape FO _ _ _ _ E) as (c & s & Hc & Hb & He).
     destruct (absorb_at FO _ _ id c (frequency_index c) ch _ s W Hc (or_intror eq_refl) Hb He)
       as (W' & _ & _ & Hf & Ho & _).
-    destruct (Hf eq_refl) as [H1 H2]. repeat split; auto; apply Ho; auto.
+    destruct (Hf eq_refl) as [H1 H2].
+    split; [exact W'|]. split; [reflexivity|]. split; [split; assumption|]. intros id' Hne. apply Ho; auto.
   - destruct (absorb_offset_change FO id ch (f_est flt)) as [e| |] eqn:E; try discriminate.
     inversion H; subst flt'. cbn [with_est f_est f_links].
     destruct (absorb_offset_shape FO _ _ _ _ E) as (c & s & Hc & Hb & He).
     destruct (absorb_at FO _ _ id c (offset_index c) ch _ s W Hc (or_introl eq_refl) Hb He)
       as (W' & _ & Hf & _ & Ho & _).
-    destruct (Hf eq_refl) as [H1 H2]. repeat split; auto; apply Ho; auto.
+    destruct (Hf eq_refl) as [H1 H2].
+    split; [exact W'|]. split; [reflexivity|]. split; [split; assumption|]. intros id' Hne. apply Ho; auto.
   - destruct (absorb_system_clock_offset_change FO id d (f_est flt)) as [e| |] eqn:E; try discriminate.
     inversion H; subst flt'. cbn [with_est f_est f_links].
     destruct (absorb_system_shape FO _ _ _ _ E) as (c & s & Hc & Hb & He).
     destruct (absorb_at FO _ _ id c (offset_index c) (fdt FO d) _ s W Hc (or_introl eq_refl) Hb He)
       as (W' & _ & Hf & _ & Ho & _).
-    destruct (Hf eq_refl) as [H1 H2]. repeat split; auto; apply Ho; auto.
+    destruct (Hf eq_refl) as [H1 H2].
+    split; [exact W'|]. split; [reflexivity|]. split; [split; assumption|]. intros id' Hne. apply Ho; auto.
 Qed.
 
 (* ------------------------------------------------------------ the steering loop *)
@@ -83,7 +86,8 @@ Lemma steer_loop_spec old : forall ids index ans acc acc',
 Proof.
   induction ids as [|id ids IH]; intros index ans acc acc' W Hn H; cbn [steer_loop] in H.
   - inversion H; subst acc'. split; auto. split; auto.
-    exists []. cbn. rewrite app_nil_r. repeat split; auto. intros [|k] id' Hk; discriminate.
+    exists []. cbn. rewrite app_nil_r. split; [reflexivity|]. split; [reflexivity|].
+    intros [|k] id' Hk; discriminate.
   - inversion Hn as [|? ? Hnin Hn']; subst.
     unfold res_bind in H at 1.
     destruct (steer_one old index id _ acc) as [acc1| |] eqn:H1; try discriminate.
@@ -92,7 +96,7 @@ Proof.
     destruct (apply_change id (snd dc) (fst acc)) as [flt1| |] eqn:Ha; try discriminate.
     inversion H1; subst acc1. clear H1.
     destruct (apply_change_spec _ _ _ _ W Ha) as (W1 & _ & He & Ho).
-    destruct (IH (S index) (tl ans) _ acc' W1 Hn' H) as (W' & Hrest & dcs & Hlen & Hcalls & Hk).
+    destruct (IH (S index) (tl ans) (flt1, snd acc ++ [fst dc]) acc' W1 Hn' H) as (W' & Hrest & dcs & Hlen & Hcalls & Hk).
     cbn [fst snd] in *.
     split; auto. split.
     + intros id' Hnot. assert (id' <> id) by (intros ->; apply Hnot; now left).
@@ -134,9 +138,10 @@ Proof.
   { unfold f_progress_time, on_est, res_bind in Hp.
     destruct (progress_time FO now (f_est (c_filter c))) as [e| |] eqn:E; try discriminate.
     inversion Hp; subst flt. cbn. eapply WF_progress_time; eauto. }
-  destruct (steer_loop_spec _ _ _ _ _ _ Wf Hn Hl) as (W' & Hrest & dcs & Hlen & Hcalls & Hk).
-  exists flt, dcs. cbn [fst snd with_filter c_clocks c_filter] in *.
-  repeat split; auto; try (apply Hrest; auto).
+  destruct (steer_loop_spec (c_filter c) (c_clocks c) 0 ans (flt, []) r Wf Hn Hl) as (W' & Hrest & dcs & Hlen & Hcalls & Hk).
+  exists flt, dcs. cbn [fst snd with_filter c_clocks c_filter app] in *.
+  split; [reflexivity|]. split; [reflexivity|]. split; [exact W'|]. split; [exact Hcalls|].
+  split; [exact Hlen|]. split; [exact Hrest|]. exact Hk.
 Qed.
 
 (* ------------------------------------------------------------ the decision *)
